@@ -9,10 +9,10 @@ from .c20 import oracle_key
 PREFIXES = ["SUPER_", "SUPER_", "CHR", "LG_"]
 
 
-def make_tagger(two_haps, primary=False, singletons=False):
+def make_tagger(two_haps, primary=False, singletons=False, haps=("HAP1", "HAP2")):
     def tagger(rng, ptx, groups):
         # Primary mode: the curated haplotype is tagged Primary instead of with its own name
-        hap_cycle = ["Primary" if primary else "HAP1", "HAP2"]
+        hap_cycle = ["Primary" if primary else haps[0], haps[1]]
         painted_seen = 0
         used_names = set()
         contaminants = rng.random() < 0.3
@@ -139,7 +139,10 @@ class C10(PipelineProp):
         if rng.random() < 0.06:
             return self.gen_sliver(rng)
         two = rng.random() < 0.3
-        inp = P.gen_input(rng, style=rng.choice(["tpf", "fasta"]), hap_names=two, nscaf=rng.randint(2, 7))
+        # haplotype tags are free text: the usual spellings, and short lower-case ones (a chromosome NAME tag is
+        # an upper-case letter with digits, roman numerals, or digits with upper-case letters -- case matters)
+        haps = rng.choice([("HAP1", "HAP2")] * 4 + [("Hap1", "Hap2"), ("h1", "h2"), ("a", "b"), ("mat", "pat")]) if two else ("HAP1", "HAP2")
+        inp = P.gen_input(rng, style=rng.choice(["tpf", "fasta"]), hap_names=two and haps[0].upper() == "HAP1", nscaf=rng.randint(2, 7))
         if rng.random() < 0.3:
             # equal-size scaffolds
             inp["scaffolds"].append({"name": inp["scaffolds"][0]["name"] + "b", "rows": [
@@ -152,8 +155,9 @@ class C10(PipelineProp):
                 inp["scaffolds"].pop()
         primary = two and rng.random() < 0.35
         singletons = two and not primary and rng.random() < 0.5
-        ptx, pieces = P.gen_pretext(rng, inp, "edit", tagger=make_tagger(two, primary, singletons))
-        return {"gen": "named/" + ("2hap" + ("-primary" if primary else "-singletons" if singletons else "") if two else "1hap"),
+        ptx, pieces = P.gen_pretext(rng, inp, "edit", tagger=make_tagger(two, primary, singletons, haps))
+        return {"gen": "named/" + ("2hap" + ("-primary" if primary else "-singletons" if singletons else "")
+                                   + ("" if haps[0] == "HAP1" else "-" + haps[0]) if two else "1hap"),
                 "input": inp, "pretext": ptx, "prefix": rng.choice(PREFIXES), "want_csv": True, "two": two}
 
     def oracle(self, case, obs):
